@@ -422,6 +422,16 @@ func (w *WrapMetadata) Save(state map[uint16]*models.CheckpointDocument, dirty m
 	n := w.n
 	w.mu.Unlock()
 	w.Log.Add(evlog.Rec{K: "md.save.call", VB: -1, A: uint64(n)})
+	for vb, d := range state {
+		if d != nil && d.Checkpoint != nil {
+			var ss, se uint64
+			if d.Checkpoint.Snapshot != nil {
+				ss, se = d.Checkpoint.Snapshot.StartSeqNo, d.Checkpoint.Snapshot.EndSeqNo
+			}
+			// the whole dump: a whole-state back end (file) holds exactly these vBuckets after the save
+			w.Log.Add(evlog.Rec{K: "md.state", VB: int(vb), Seq: d.Checkpoint.SeqNo, B: ss, C: se, D: d.Checkpoint.VbUUID, A: uint64(n)})
+		}
+	}
 	err := w.Inner.Save(state, dirty, b)
 	es := ""
 	if err != nil {
